@@ -17,10 +17,12 @@
     The statement holds for every configuration: alignment mode (zip c), threshold
     (thr_num / thr_den, any), bidirectional, always_include_values; verbosity and
     view do not enter the payload (checked by the correspondence). *)
-From Coq Require Import List ZArith Bool Arith Permutation.
+From Coq Require Import List ZArith NArith Bool Arith Permutation.
 Import ListNotations.
 From DD Require Import Base.PyStr Base.Value Path.PathModel Diff.Tree Diff.DiffModel
-  Delta.DeltaModel Delta.DeltaRun Delta.DeltaGuard Delta.DeltaGood Delta.DeltaRoundtrip Delta.DeltaChain Delta.DeltaExamples.
+  Hash.HashModel DiffIO.DiffIOModel
+  Delta.DeltaModel Delta.DeltaRun Delta.DeltaGuard Delta.DeltaGood Delta.DeltaRoundtrip Delta.DeltaChain Delta.DeltaExamples
+  Delta.DeltaIO Delta.DeltaIOProofs.
 
 (* the round trip, for all nested values inside the guards *)
 Theorem C01_roundtrip_partial :
@@ -120,3 +122,41 @@ Theorem C01_roundtrip_refuted_private_keys :
   rt hatom_ex no_ops ex_cfg conv_none false false pk_t1 pk_t2 = (pk_t1, 0) /\ veqb pk_t1 pk_t2 = false.
 Proof. exact refuted_private_keys. Qed.
 Print Assumptions C01_roundtrip_refuted_private_keys.
+
+(* ---- ignore_order=True, report_repetition=True on lists of distinct scalars ----
+   Models: DiffIO/DiffIOModel.v (ignore-order diff with the pairing as an oracle),
+   Delta/DeltaIO.v (index-map payload, _do_ignore_order).  For EVERY pairing oracle
+   (paired items travel as values_changed / type_changes at the old index, unpaired ones as
+   iterable_items_added_at_indexes / removed_at_indexes), every hasher that separates the
+   atoms involved, every threshold, bidirectional, always_include_values: the result is a
+   list, no error is logged, and its items are a permutation of t2's. *)
+Theorem C01_ignore_order_perm_partial :
+  forall H udiff c pairs conv bidir always ro ao (X Y : list atom),
+    (forall a b, In a (X ++ Y) -> In b (X ++ Y) -> hatom_io H c true a = hatom_io H c true b -> a = b) ->
+    NoDup X -> NoDup Y -> alias_free (X ++ Y) ->
+    (forall ty0 v v', conv ty0 v = Some v' -> type_of v' = ty0) ->
+    ro [] = [] ->
+    let t1 := VList (map VAtom X) in
+    let t2 := VList (map VAtom Y) in
+    let r := run_diff_io H udiff nos nos c true pairs t1 t2 in
+    exists zs, apply_io H conv ro ao (to_delta_io conv bidir always t1 t2 (fst r) (snd r)) t1 = (VList zs, 0)
+               /\ Permutation zs (map VAtom Y).
+Proof. exact io_roundtrip. Qed.
+Print Assumptions C01_ignore_order_perm_partial.
+
+(* satisfiable: [1,2,3,4] -> [2,'a',None,7,9] with the pairing the implementation chose;
+   the model computes [2,'a',None,9,7] *)
+Example C01_ignore_order_guards_satisfiable :
+  (exists zs, io_result = (VList zs, 0) /\ Permutation zs (ys io_Y)) /\
+  io_result = (VList (map VAtom [AInt 2; AStr [97%N]; ANone; AInt 9; AInt 7]), 0).
+Proof. exact io_example. Qed.
+Print Assumptions C01_ignore_order_guards_satisfiable.
+
+(* without alias-freeness: [1] -> [True, 1] rebuilds [True] *)
+Theorem C01_ignore_order_perm_refuted_alias :
+  let r := run_diff_io hexhash (fun _ _ => []) nos nos io_cfg true (fun _ => []) (VList [VAtom (AInt 1)]) (VList [VAtom (ABool true); VAtom (AInt 1)]) in
+  apply_io hexhash conv_none_io (fun l => l) (fun l => l)
+    (to_delta_io conv_none_io false false (VList [VAtom (AInt 1)]) (VList [VAtom (ABool true); VAtom (AInt 1)]) (fst r) (snd r))
+    (VList [VAtom (AInt 1)]) = (VList [VAtom (ABool true)], 0).
+Proof. exact io_refuted_alias. Qed.
+Print Assumptions C01_ignore_order_perm_refuted_alias.
